@@ -2,10 +2,9 @@
    Every raw access of binary_unsafe.rs is modelled with an explicit bounds test whose failure is the
    outcome [Panic SOob] (undefined behaviour in Rust); the theorems state that this outcome does not
    occur when the documented preconditions hold.
-   Not yet proved (modelled in Thrift/Unsafe.v and tied to the code by the correspondence run only):
-   the iterative skipper [u_skip] consumes exactly the skipped value --
-     forall v, wt v -> u_skip fuel (ttype_of v) (mkU (hdr ++ enc v ++ r) 3) = Ok (length (enc v), u') /\ urest u' = r. *)
-From PV Require Import Thrift.Unsafe Proofs.HeaderP Proofs.RoundtripP Proofs.UnsafeP.
+   The iterative skipper [u_skip] / [skip_iter] is proved equal to the checked recursive skipper on
+   every input the latter accepts (C11_skip_eq below; details and the fixed-size table: the C07_iter theorems). *)
+From PV Require Import Thrift.Unsafe Proofs.HeaderP Proofs.RoundtripP Proofs.SkipP Proofs.UnsafeP Proofs.IterSkipP.
 Open Scope Z_scope.
 
 (* Writer.  On a transport set up as the contract prescribes -- a BytesMut pre-sized to [cap]
@@ -50,3 +49,14 @@ Theorem C11_roundtrip : forall k v c,
       exists u', uread_val fuel (ttype_of v) (mkU (flat ss ++ r) 0) = Ok (v, u') /\ urest u' = r.
 Proof. exact unchecked_roundtrip. Qed.
 Print Assumptions C11_roundtrip.
+
+(* Skipper.  On EVERY input on which the checked binary skipper succeeds (any depth budget, so any
+   nesting depth), the unchecked codec's iterative skipper -- entered through TInputProtocol::skip
+   right after a field header, or directly through skip_till_depth -- returns the same count and
+   stops at the same position, without any access outside its window (no [Panic SOob] / [SSplit]). *)
+Theorem C11_skip_eq : forall f d ty s c s' u,
+  skip_val PBinary f d ty s = Ok (c, s') -> RU s u ->
+  (exists k u', (forall fuel, skip_iter (k + fuel) ty u = Ok (c, u')) /\ RU s' u' /\ ubuf u' = ubuf u) /\
+  ((3 <= uidx u)%nat -> exists k u', (forall fuel, u_skip (k + fuel) ty u = Ok (c, u')) /\ RU s' u').
+Proof. exact unchecked_skip_eq. Qed.
+Print Assumptions C11_skip_eq.
